@@ -50,9 +50,14 @@ def run(tier, seed):
     sources.append(('S1-2025b', t1, z1 + sorted(l1), 2000, 2050))
     t2, z2, l2 = tzsrc.reconstruct_cpp(os.path.join(runner.REPO, 'src/ace_time/zonedbx'))
     sources.append(('S2-zonedbx', t2, z2 + sorted(l2), 2000, 2050))
+    # S6: fields off the table granularity (truncation notes, raw vs truncated values) - small, both tiers
+    from pyexp import mutants
+    from checks.c03 import zic_filter
+    g6 = mutants.granularity_source()
+    kept6, _ = zic_filter([(i, c_[3]) for i, c_ in enumerate(g6)], 'S6')
+    k6 = {k for k, _ in kept6}
+    sources.append(('S6-granularity', '\n'.join(c_[3] for i, c_ in enumerate(g6) if i in k6) + '\n', [c_[4] for i, c_ in enumerate(g6) if i in k6], 2000, 2050))
     if thorough:
-        from pyexp import mutants
-        from checks.c03 import zic_filter
         fam = [m for m in mutants.family() if m[0] % 2 == seed % 2]
         kept, rej = zic_filter([(m[0], m[3]) for m in fam], 'S3')
         ks = {k for k, _ in kept}
@@ -71,7 +76,8 @@ def run(tier, seed):
                             jobs[(scope, lang, hs)] = ex.submit(run_tzcompiler, wd, inp, scope, lang, 'zonedb,zonelist', hs, y0, y1)
             results = {k: f.result() for k, f in jobs.items()}
             cov['compiler_runs'] += len(results)
-            comps = {scope: pipeline.compile_text(text, scope, start_year=y0, until_year=y1) for scope in ('basic', 'extended')}
+            # tools/tzcompiler.py is non-strict unless told otherwise: the in-memory compilation mirrors that
+            comps = {scope: pipeline.compile_text(text, scope, start_year=y0, until_year=y1, strict=False) for scope in ('basic', 'extended')}
             for scope in ('basic', 'extended'):
                 comp = comps[scope]
                 for lang in ('arduino', 'python'):
@@ -172,6 +178,8 @@ def run(tier, seed):
             for n in rx:
                 if (rb.get(n) is None) != (rx[n] is None) or (rb.get(n) and rb[n] != rx[n]):
                     note = ' '.join(str(x) for x in list(cb.notable_zones.get(n, [])) + list(cx.notable_zones.get(n, [])))
+                    for cc in (cb, cx):     # truncation notes are also attached to the policies a zone uses
+                        note += ' ' + ' '.join(str(x) for e in cc.zones_map.get(n, []) for x in cc.notable_policies.get(e['rules'], []))
                     if re.search(r'truncat|granularity', note, re.I):
                         continue
                     rep.violation('c20:basic-and-extended-behave-differently', {'source': tag, 'zone': n, 'basic_vs_zic': rb.get(n), 'extended_vs_zic': rx[n]})
